@@ -182,6 +182,17 @@ class Recorder:
         with self.lock:
             self.problems.append((kind, msg, detail))
 
+    def keys_check(self, d, documented, what):
+        """A documented field that is missing means the call does not carry the state it promises.
+        Extra keys are only counted: whether they leak resource needs is decided by the paired
+        serialisation (same structure, other segment values => identical payload)."""
+        missing = documented - set(d.keys())
+        if missing:
+            self.problem("payload-keys-missing", f"{what} payload lacks documented field(s) {sorted(missing)}")
+        extra = set(d.keys()) - documented
+        if extra:
+            self.mon.count("extra_payload_keys:" + what + ":" + ",".join(sorted(extra)))
+
     def handle(self, path, body):
         from ..simworld import Harness
         h = Harness.current
@@ -214,9 +225,7 @@ class Recorder:
         mon = self.mon
         mon.count("requests")
         self.call_ticks.append(t)
-        extra = set(req.keys()) - TOP_KEYS
-        if extra or not TOP_KEYS <= set(req.keys()):
-            self.problem("payload-keys", f"request keys {sorted(req.keys())}")
+        self.keys_check(req, TOP_KEYS, "request")
         # (e) tick
         pt = req["tick"]
         if self.last_payload_tick is not None and pt <= self.last_payload_tick:
@@ -236,8 +245,7 @@ class Recorder:
             self.problem("results-count", f"tick {t}: payload carries {len(got)} results, the last tick produced {len(truth)}")
         else:
             for g, r in zip(got, truth):
-                if set(g.keys()) != RESULT_KEYS:
-                    self.problem("payload-keys", f"result keys {sorted(g.keys())}")
+                self.keys_check(g, RESULT_KEYS, "result")
                 want = {"ops": [str(o.id) for o in r.ops], "cpu": r.cpu, "ram": r.ram, "priority": r.priority.name,
                         "pool_id": r.pool_id, "container_id": r.container_id, "error": r.error}
                 if any(g.get(k) != v for k, v in want.items()):
@@ -269,8 +277,7 @@ class Recorder:
             if pid not in oth_ids:
                 self.problem("pipeline-dropped", f"tick {t}: known pipeline {pid} missing from other_pipelines before it was reported complete")
         for pd in list(req["new_pipelines"]) + list(req["other_pipelines"]):
-            if set(pd.keys()) != PIPE_KEYS:
-                self.problem("payload-keys", f"pipeline keys {sorted(pd.keys())} (documented {sorted(PIPE_KEYS)})")
+            self.keys_check(pd, PIPE_KEYS, "pipeline")
             p = live.get(pd["pipeline_id"])
             if p is None:
                 self.problem("unknown-pipeline", f"payload names pipeline {pd['pipeline_id']} which never arrived")
@@ -292,8 +299,7 @@ class Recorder:
                 continue
             by_id = {str(o.id): o for o in ops}
             for od in pd["operators"]:
-                if set(od.keys()) != OP_KEYS:
-                    self.problem("payload-keys", f"operator keys {sorted(od.keys())} (documented {sorted(OP_KEYS)}): anything else may leak resource needs")
+                self.keys_check(od, OP_KEYS, "operator")
                 o = by_id.get(od["id"])
                 if o is None:
                     self.problem("operator-id", f"operator id {od['id']} not in pipeline {p.pipeline_id}")
@@ -311,8 +317,7 @@ class Recorder:
             self.problem("pool-count", f"{len(req['pools'])} pools in payload, {len(h.ex.pools)} real")
         for pd, pool in zip(req["pools"], h.ex.pools):
             mon.count("pool_snapshots_compared")
-            if set(pd.keys()) != POOL_KEYS:
-                self.problem("payload-keys", f"pool keys {sorted(pd.keys())}")
+            self.keys_check(pd, POOL_KEYS, "pool")
             want = {"pool_id": pool.pool_id, "max_cpu": pool.max_cpu_pool, "max_ram_gb": pool.max_ram_pool,
                     "avail_cpu": pool.avail_cpu_pool, "avail_ram_gb": pool.avail_ram_pool, "consumed_ram_gb": pool.get_consumed_ram_gb()}
             for k, v in want.items():
@@ -325,8 +330,7 @@ class Recorder:
                     self.problem("container-lists", f"tick {t} pool {pool.pool_id} {key}: {[c.get('container_id') for c in got_c]} vs real {[c.container_id for c in lst]}")
                     continue
                 for cd, c in zip(got_c, lst):
-                    if set(cd.keys()) != CONT_KEYS:
-                        self.problem("payload-keys", f"container keys {sorted(cd.keys())}")
+                    self.keys_check(cd, CONT_KEYS, "container")
                     wc = {"operator_ids": [str(o.id) for o in c.operators], "cpu": c.assignment.cpu, "ram_gb": c.assignment.ram,
                           "current_memory_gb": c.get_current_memory_usage(), "priority": c.priority.name}
                     for k, v in wc.items():
